@@ -13,16 +13,17 @@ def run(ck):
     ck.model("MC_TruncI.tla", cfg, timeout=1800)
     # negative control: with the original threshold code (Guarded = FALSE: a cumulative cutoff beyond the total weight reads
     # sall[-0], defect F05) the model must report that the implementation keeps something else than the rule says
-    ncfg = os.path.join(ck.scratch, "MC_TruncN.cfg")
-    open(ncfg, "w").write("SPECIFICATION Spec\nCONSTANTS\n  V = 4\n  Cutoffs <- CutSetQ\n  MaxBonds <- BondSetQ\n  Guarded = FALSE\n"
-                          "INVARIANT ImplKeepsWhatTheRuleSays\nCHECK_DEADLOCK FALSE\n")
-    r, st = ck.model("MC_TruncI.tla", ncfg, workers=1, expect_ok=False)
-    ck.cov["models"][-1]["negative_control"] = True    # stops at the expected counterexample, hence not "complete"
-    hit = "Invariant ImplKeepsWhatTheRuleSays is violated" in r["out"]
-    ck.cov["negative_controls"] = [{"instance": "V=4, CutSetQ, BondSetQ", "Guarded": "FALSE",
-                                    "invariant": "ImplKeepsWhatTheRuleSays", "violated_as_expected": hit}]
-    if not hit and not ck.selftest:    # (the self-test of the trace binding skips the pure models)
-        ck.problems.append("negative control (unguarded cumulative threshold, F05) was not rejected by MC_Trunc")
+    if not ck.selftest:    # (the self-test of the trace binding skips the pure models)
+        ncfg = os.path.join(ck.scratch, "MC_TruncN.cfg")
+        open(ncfg, "w").write("SPECIFICATION Spec\nCONSTANTS\n  V = 4\n  Cutoffs <- CutSetQ\n  MaxBonds <- BondSetQ\n  Guarded = FALSE\n"
+                              "INVARIANT ImplKeepsWhatTheRuleSays\nCHECK_DEADLOCK FALSE\n")
+        r, st = ck.model("MC_TruncI.tla", ncfg, workers=1, expect_ok=False)
+        ck.cov["models"][-1]["negative_control"] = True    # stops at the expected counterexample, hence not "complete"
+        hit = "Invariant ImplKeepsWhatTheRuleSays is violated" in r["out"]
+        ck.cov["negative_controls"] = [{"instance": "V=4, CutSetQ, BondSetQ", "Guarded": "FALSE",
+                                        "invariant": "ImplKeepsWhatTheRuleSays", "violated_as_expected": hit}]
+        if not hit:
+            ck.problems.append("negative control (unguarded cumulative threshold, F05) was not rejected by MC_Trunc")
     q = ck.tier == "quick"
     progs = linalg_drv.trunc_programs(ck.seed, 48 if q else 900)
     ck.cov["rule"] = ("monomial-block matrices with pairwise distinct perfect-square singular values (abelian/fermionic), six cutoff "
